@@ -42,7 +42,7 @@ def plan(tier, seed):
 def run_shard(spec, acc):
     rnd = random.Random(spec["seed"])
     for i in range(spec["n"]):
-        tspec = trees.random_project(rnd, depth=rnd.choice([3, 4, 5]), imports_per_file=(1, 4), name_imports=0.2)
+        tspec = trees.random_project(rnd, depth=rnd.choice([3, 4, 5]), imports_per_file=(1, 4), name_imports=0.2, externals=rnd.choice([0.0, 0.25]))
         if rnd.random() < 0.4:
             # src-layout style: names written relative to a directory between root_path and module_path
             tops = [d for d in trees.all_dirs(tspec) if d and "/" not in d]
@@ -123,6 +123,8 @@ def one_tree(tspec, acc, rnd, sample=False, forced=None):
                     HUB.violation("C09", "imports-differ-from-quotient", f"level_limit={k}: imports are not the quotient of the full import relation", {"k": k, "mp": mp_rel, "extra": sorted(gi2 - ei), "missing": sorted(ei - gi2)})
                 if lim.hierarchy:
                     HUB.violation("C09", "hierarchy-invariant", lim.hierarchy[0], {"k": k, "mp": mp_rel})
+                if rnd.random() < 0.35 or (forced and forced.get("variant")):
+                    limit_variants(root, mp_abs, mp_rel, mpname, k, total, lim, tspec, rnd, acc, forced)
                 # verdict preservation
                 cfgs = forced.get("cfgs") if forced and forced.get("cfgs") else rules_above_limit(rnd, lim.nodes, mpname, k)
                 for cfg in cfgs:
@@ -142,8 +144,65 @@ def one_tree(tspec, acc, rnd, sample=False, forced=None):
         trees.remove_tree(root)
 
 
+def limit_variants(root, mp_abs, mp_rel, mpname, k, total, lim, tspec, rnd, acc, forced=None):
+    """(a) the same limited scan with root_path / module_path spelled with a trailing separator or as pathlib.Path;
+    (b) external libraries kept (with or without external exclusion patterns): the limited architecture is the
+    truncation of the unlimited one there too - externals are truncated like every other module name."""
+    from pathlib import Path
+
+    from pytestarch import get_evaluable_architecture
+
+    for label, (r_arg, m_arg) in {"root-trailing-slash": (root + "/", mp_abs), "module-trailing-slash": (root, mp_abs + "/"), "both-trailing-slash": (root + "/", mp_abs + "/"), "pathlib": (Path(root), Path(mp_abs))}.items():
+        case = {"kind": "pair", "spec": tspec, "mp": mp_rel, "k": k, "variant": "spelling:" + label}
+        HUB.case = case
+        get_evaluable_architecture(r_arg, m_arg, level_limit=k)
+        sv = HUB.scan_events[-1]
+        acc.evaluated()
+        acc.count("limited_scans_with_another_path_spelling")
+        if sv.state != lim.state:
+            HUB.violation("C09", f"limited-scan-depends-on-path-spelling:{label}", f"level_limit={k}: the same directories spelled as {label} build another architecture", {"k": k, "mp": mp_rel, "nodes_diff": sorted(sv.nodes ^ lim.nodes)[:12], "imports_diff": sorted(sv.imps ^ lim.imps)[:12]})
+    t = lambda n: truncate(n, total)  # noqa: E731
+    get_evaluable_architecture(root, mp_abs, exclude_external_libraries=False)
+    inc = HUB.scan_events[-1]
+    internal = lambda n: n == mpname or is_ancestor(mpname, n) or is_ancestor(n, mpname)  # noqa: E731
+    ext = sorted(n for n in inc.nodes if not internal(n))
+    deep = [n for n in ext if len(n.split(".")) > total]
+    options = [None]
+    if ext:
+        e = rnd.choice(deep or ext)
+        options += [(e,), (e.split(".")[0] + "*",), ("*" + e.split(".")[-1],)]
+    pats = forced["ext"] if forced and "ext" in forced else rnd.choice(options)
+    kw = {"exclude_external_libraries": False}
+    if pats:
+        kw["external_exclusions"] = tuple(pats)
+    case = {"kind": "pair", "spec": tspec, "mp": mp_rel, "k": k, "variant": "include", "ext": list(pats) if pats else None}
+    HUB.case = case
+    get_evaluable_architecture(root, mp_abs, **kw)
+    full = HUB.scan_events[-1]
+    get_evaluable_architecture(root, mp_abs, level_limit=k, **kw)
+    lim2 = HUB.scan_events[-1]
+    acc.evaluated(2)
+    acc.count("limited_scans_with_externals_kept")
+    if deep and pats:
+        acc.count("limited_scans_with_an_external_pattern_and_externals_below_the_limit")
+    exp_nodes = {t(n) for n in full.nodes}
+    exp_imps = {(t(a), t(b)) for a, b in full.imps if t(a) != t(b)}
+    if lim2.nodes != exp_nodes:
+        HUB.violation("C09", "nodes-differ-from-truncation:externals-kept", f"level_limit={k}, external libraries kept: modules are not the truncated names of the unlimited architecture", {"k": k, "mp": mp_rel, "external_exclusions": pats, "extra": sorted(lim2.nodes - exp_nodes), "missing": sorted(exp_nodes - lim2.nodes)})
+    related_ = lambda e: is_ancestor(e[0], e[1]) or is_ancestor(e[1], e[0])  # noqa: E731
+    gi = {e for e in lim2.imps if not related_(e)}
+    ei = {e for e in exp_imps if not related_(e)}
+    if gi != ei:
+        HUB.violation("C09", "imports-differ-from-quotient:externals-kept", f"level_limit={k}, external libraries kept: imports are not the quotient of the unlimited import relation", {"k": k, "mp": mp_rel, "external_exclusions": pats, "extra": sorted(gi - ei), "missing": sorted(ei - gi)})
+
+
 def replay(case, acc):
-    one_tree(case["spec"], acc, random.Random(0), forced={"mp": case["mp"], "k": case.get("k", 1), "cfgs": case.get("cfgs")})
+    forced = {"mp": case["mp"], "k": case.get("k", 1), "cfgs": case.get("cfgs")}
+    if case.get("variant"):
+        forced["variant"] = case["variant"]
+        if "ext" in case:
+            forced["ext"] = case["ext"]
+    one_tree(case["spec"], acc, random.Random(0), forced=forced)
 
 
 def floors(acc, tier):
@@ -157,6 +216,9 @@ def floors(acc, tier):
         why.append("verdict pairs never showed both outcomes")
     if not any(k.split(":")[2] != "0" for k in acc.hists.get("depth_k_mpdepth", {})):
         why.append("module_path below root never combined with a limit")
+    for c, n in (("limited_scans_with_another_path_spelling", 100), ("limited_scans_with_externals_kept", 50), ("limited_scans_with_an_external_pattern_and_externals_below_the_limit", 5)):
+        if acc.counters[c] < n:
+            why.append(f"{c}: only {acc.counters[c]}")
     if acc.counters["scan_model_errors"]:
         why.append("reference scanner crashed")
     return why
